@@ -173,7 +173,7 @@ func VerifHarness_C12_ticker_keeps_newest() {
 		return timeoutInfo{Duration: time.Duration(ms) * time.Millisecond, Height: int64(5 + vNondetLen(tag+".h", 0, 1)),
 			Round: int64(vNondetLen(tag+".r", 0, 2)), Step: steps[vNondetLen(tag+".s", 0, 3)]}
 	}
-	t1, t2 := mk("first", 40), mk("second", 90)
+	t1, t2 := mk("first", 300), mk("second", 600)
 	older := t2.Height < t1.Height || (t2.Height == t1.Height && (t2.Round < t1.Round || (t2.Round == t1.Round && t2.Step <= t1.Step)))
 	tt := &timeoutTicker{tickChan: make(chan timeoutInfo, tickTockBufferSize), tockChan: make(chan timeoutInfo, tickTockBufferSize)}
 	tt.BaseService = *vNewBase()
@@ -200,7 +200,11 @@ func VerifHarness_C12_ticker_keeps_newest() {
 		return
 	}
 	go tt.timeoutRoutine()
-	time.Sleep(250 * time.Millisecond)
+	// wait for the first timeout to fire, then long enough for a second one (there must be none)
+	for i := 0; i < 2000 && len(tt.tockChan) == 0; i++ {
+		time.Sleep(5 * time.Millisecond)
+	}
+	time.Sleep(200 * time.Millisecond)
 	close(tt.Quit)
 	vReach("both-ticks-taken")
 	fired := 0
